@@ -51,7 +51,7 @@ def payload_check(chk, quick):
         files = {}
         exp = []
         for bi in range(nblocks):
-            fname = rng.choice(["a.py", "sub/dir/b.py", "c d.py"])
+            fname = rng.choice(["a.py", "sub/dir/b.py", "c d.py", "ml.rs"])
             body = rng.choice(NASTY)
             mode = rng.choice(["plain", "plain", "group", "whole", "nomatch"])
             extra = {"name": "b%d" % bi, "data-x": rng.choice(["1", "two words", "ü"])}
@@ -82,12 +82,26 @@ def payload_check(chk, quick):
             lines = files.setdefault(fname, [])
             tagline = len(lines) + 1
             quote = lambda v: ("'%s'" % v) if '"' in v else ('"%s"' % v)
-            lines.append("# <block %s>" % " ".join(["%s=%s" % (k, quote(v)) for k, v in attrs.items()] + bare))
-            for b_ in bare:
-                attrs[b_] = ""
-            lines.extend(body.split("\n"))
-            lines.append("# </block>")
-            lines.append("filler = %d" % bi)
+            if fname == "ml.rs":
+                # the start tag spans several lines of a block comment: ctx.line is the line of its '<'
+                lines.append("/* note")
+                tagline = len(lines) + 1
+                parts = ["%s=%s" % (k, quote(v)) for k, v in attrs.items()] + bare
+                lines.append("   <block " + parts[0])
+                lines.extend("     " + p_ for p_ in parts[1:])
+                lines.append("   > */")
+                for b_ in bare:
+                    attrs[b_] = ""
+                lines.extend(body.split("\n"))
+                lines.append("/* </block> */")
+                lines.append("static F%d: i32 = %d;" % (bi, bi))
+            else:
+                lines.append("# <block %s>" % " ".join(["%s=%s" % (k, quote(v)) for k, v in attrs.items()] + bare))
+                for b_ in bare:
+                    attrs[b_] = ""
+                lines.extend(body.split("\n"))
+                lines.append("# </block>")
+                lines.append("filler = %d" % bi)
             exp.append((fname, tagline, "\x1e".join("%s=%s" % (k, attrs[k]) for k in sorted(attrs)), want))
         log = os.path.join(wd, "calls-%d.log" % ci)
         cid = "pay%d" % ci
